@@ -263,7 +263,10 @@ func (r TypeClassInstance) IsFunc() bool {
 }
 
 func (r TypeClassInstance) IsGivenAny() bool {
-	return r.Implicit && r.TypeParam.Size() == 1 && r.TypeParam[0].IsAny()
+	// a catch-all instance targets the bare type parameter ( Given[T any]() fp.Eq[T] );
+	// MergeSeq[T any]() fp.Monoid[fp.Seq[T]] also has one any parameter but is a real instance for fp.Seq
+	return r.Implicit && r.TypeParam.Size() == 1 && r.TypeParam[0].IsAny() &&
+		r.Result.TypeArgs.Head().Exists(TypeInfo.IsTypeParam)
 }
 
 type TypeClassInstancesOfPackage struct {
